@@ -17,9 +17,7 @@ INVARIANTS = ["StoreMatchesLru", "SizeBound", "NeverShare", "ReturnedOwn", "Rais
 # (group, extra TLC environment): the big spelling group is split so that no TLC output has to be held at once
 PARTS = {
     "quick": [("spell", {}), ("lru", {}), ("inst", {}), ("lazy", {}), ("overlap", {})],
-    "thorough": [("spell", {"FORM": "fn", "KEYFN": "0"}), ("spell", {"FORM": "fn", "KEYFN": "1"}),
-                 ("spell", {"FORM": "meth", "KEYFN": "0"}), ("spell", {"FORM": "meth", "KEYFN": "1"}),
-                 ("lru", {"FORM": "fn"}), ("lru", {"FORM": "meth"}), ("inst", {}), ("lazy", {}), ("overlap", {})],
+    "thorough": [("spell", {"FORM": "fn"}), ("spell", {"FORM": "meth"}), ("lru", {}), ("inst", {}), ("lazy", {}), ("overlap", {})],
 }
 DECO = {"lru": "alru_cache", "inst": "acached_per_instance", "lazy": "alazy_constant"}
 CLAUSE = {"hit": "hit", "new": "miss", "raise": "raise", "evicted": "lru", "dropped": "instance", "drop": "instance",
@@ -136,7 +134,7 @@ def main():
             "evaluations": total, "distinct_nontrivial": nontriv,
             "rule": "every call history to the group's depth over the group's call alphabet (all spellings x 2 values per parameter: "
                     "depth %s; LRU/instance/ttl histories over few keys: depth %s); non-trivial = contains a hit and a miss/eviction/drop/dirty/expiry/raise"
-                    % (("3", "5-8") if tier == "thorough" else ("2", "4-6")),
+                    % (("3 (default key; 2 with key_fn)", "3-7") if tier == "thorough" else ("2", "2-6")),
             "exhaustive": True,
         }
         rc = verdict.finish(max_print=8)
